@@ -221,6 +221,8 @@ def leaves(e):
 def loop_summary(eng, n, states, func):
     """tries to describe  for ( i = a; i <op> b; ++i / --i) region[ i + c] = <bit expression of i>;  by one 'map'
     log entry per incoming state.  Returns True when every incoming state was summarised."""
+    if n.get('k') == 'CXXForRangeStmt':
+        return range_for_summary(eng, n, states, func)
     if n.get('k') != 'ForStmt':
         return False
     init, _cv, cond, inc, body = (n.get('c', []) + [None] * 5)[:5]
@@ -312,6 +314,14 @@ def loop_summary(eng, n, states, func):
             k = L - h
             if hname in [str(x) for x in k.syms()]:
                 return False
+            # the counter only moves away from its start value
+            pre = [s2 for _, s2 in eng.ev(inc, head.copy(), func)]
+            if len(pre) == 1 and isinstance(pre[0].vars.get(var), Lin):
+                hp2 = pre[0].vars[var]
+                if entails(pre[0].cons, ge(hp2, h + 1)) and entails(pre[0].cons, le(hp2, h + 1)):
+                    head.assume(ge(h, h0))
+                elif entails(pre[0].cons, ge(hp2, h - 1)) and entails(pre[0].cons, le(hp2, h - 1)):
+                    head.assume(le(h, h0))
             # one iteration
             trues = [s for t, s in eng.cond(cond, head.copy(), func) if t]
             if len(trues) != 1:
@@ -372,6 +382,69 @@ def loop_summary(eng, n, states, func):
         del eng.obligations[mark:]
     for s_in, e in entries:
         s_in.wlog.append(e)
+    return bool(entries)
+
+
+def range_for_summary(eng, n, states, func):
+    """for (auto flag : vec) flag = <bit expression>;  -  the loop variable is the proxy of element h for an arbitrary
+    h in [0, size): one 'map' entry over the whole vector"""
+    kids = n.get('c', [])
+    if len(kids) < 3 or not isinstance(kids[1], dict) or not kids[1].get('decls'):
+        return False
+    rng, decl, body = kids[0], kids[1], kids[2]
+    lv = decl['decls'][0]['name']
+    ltype = btype((decl['decls'][0].get('t') or '').rstrip('&').strip())
+    if 'std::_Bit_reference' not in ltype:
+        return False
+    entries = []
+    mark = len(eng.obligations)
+    depth = eng.loop_depth
+    eng.loop_depth = 0
+    try:
+        for s_in in states:
+            if s_in.status != 'normal':
+                continue
+            rv = eng.ev(rng, s_in.copy(), func)
+            if len(rv) != 1 or not isinstance(rv[0][0], Obj):
+                return False
+            vec, s0 = rv[0]
+            region = region_of(vec.name)
+            size = vec_size(eng, s0, vec.name)
+            hname = 'iter@%s#%d' % (n['id'], next(eng.counter))
+            h = Lin.sym(hname)
+            eng.type_range(s0, h, 'unsigned long')
+            s0.assume(ge(h, 0), lt(h, size))
+            if not s0.ok():
+                # empty vector: no iteration, nothing written
+                entries.append((s_in, None))
+                continue
+            s0.vars[lv] = ('bitref', region, h)
+            m = len(s0.wlog)
+            rs = eng.stmt(body, [s0], func)
+            if len(rs) != 1 or rs[0].status != 'normal':
+                return False
+            new = rs[0].wlog[m:]
+            if len(new) != 1 or new[0][0] != 'put' or not isinstance(new[0][1], Ptr) or new[0][1].region != region:
+                return False
+            dst, val = new[0][1], new[0][2]
+            b = val if isinstance(val, Bit) else Bit.of(val) if isinstance(val, Lin) else None
+            if b is None and isinstance(val, Lin):
+                b = Bit(('v', val))
+            if b is None:
+                return False
+            c = dst.off - h
+            if hname in [str(x) for x in c.syms()] or not (entails(s0.cons, ge(c, 0)) and entails(s0.cons, le(c, 0))):
+                return False
+            for lf in leaves(b.e):
+                if lf[1] == region and not (entails(rs[0].cons, ge(lf[2], h)) and entails(rs[0].cons, le(lf[2], h))):
+                    return False        # reads another element of the vector it writes
+            entries.append((s_in, ('map', Ptr(region, lin(0)), size, lin(0), hname, b.e, 'up')))
+    finally:
+        eng.loop_depth = depth
+        del eng.obligations[mark:]
+    for s_in, e in entries:
+        if e is not None:
+            s_in.wlog.append(e)
     return bool(entries)
 
 
